@@ -123,7 +123,7 @@ check("C05", "exploration",
 check("C06", "fault_enumeration",
       "Fault enumeration on the real XML reader/lexer/type checker: accepted base models x 11 text blocks x 9 fault kinds "
       "(undeclared identifier, clock for operand, token deleted, bracket deleted, stray ) ] }, semicolon deleted, side "
-      "effect, unterminated comment) at every token position x 3 (quick) / 7 (thorough) layout variants (blank lines, "
+      "effect, unterminated comment) at every token position x 7 layout variants (blank lines, "
       "&#13;&#10; line ends, block and line comments, tabs, backslash continuations). Every error and warning is resolved "
       "against an independent DOM of the same bytes: XPath selects exactly one element, lines within the element's text, "
       "columns within the line, start not after end; an error lies in the faulted block (only there for non-declaring "
@@ -135,11 +135,11 @@ check("C06", "fault_enumeration",
 
 check("C07", "exploration",
       "One name declared at any subset of nine scope levels (global, template parameter/local, function parameter/local, "
-      "nested block, iteration/quantifier/select binder; 64+6 subsets quick, all 288 admissible subsets thorough) with "
+      "nested block, iteration/quantifier/select binder; all 288 admissible subsets) with "
       "pairwise distinguishable types; every model carries 23 use sites (before/after each declaration, inside/outside each "
       "scope, labels with and without select binder, invariant, another template, system section, a later declaration) and 4 "
       "queries (v, P.v, P.w with argument substitution, T2.v). The declaration each use is bound to is read from the real "
-      "document and compared with a reference lexical resolver; unknown uses must be diagnosed, one diagnostic each.",
+      "document and compared with a reference lexical resolver; unknown uses must be diagnosed, one diagnostic each. Error-recovery histories: the same use sites after each of 12 erroneous declarations (missing return, unknown names, syntax errors in statements / nested blocks / quantifiers / iterations / parameter lists / initialisers, duplicates) that declare the name in scopes of their own, at three positions; declarations after a syntactically well-formed erroneous one must stay where they were declared.",
       "The bound declaration is identified through the upper bound of the symbol's declared range. Parameter+local of the "
       "same name share a frame (duplicate definition) and are excluded.",
       "bounded-exhaustive enumeration of declaration subsets x use sites on the real parser against a reference scope resolver",
